@@ -713,6 +713,8 @@ def w_history(failure, tier):
     fixed = [
         [["add", "a", 1], ["del", "a"], ["restart"]],
         [["add", "a", 1], ["commit"], ["del", "a"], ["add", "b", 2], ["restart"]],
+        [["add", "a", 1], ["commit"], ["del", "a"], ["add", "a", 2], ["del", "a"], ["commit"]],
+        [["del", "a"], ["add", "a", 1], ["del", "a"], ["add", "b", 1], ["restart"], ["commit"]],
         [["add", "a", 1], ["add", "a", 2], ["commit"], ["add", "a", 3], ["del", "a"], ["add", "a", 4], ["restart"], ["commit"]],
         [["add", "a", 1], ["add", "b", 1], ["commit"], ["del", "b"], ["commit"], ["del", "a"], ["add", "b", 2], ["rollback"], ["add", "c", 1]],
         [["add", "a", 1], ["commit"], ["add", "b", 1], ["commit"], ["compact"], ["del", "a"], ["add", "b", 2], ["commit"]],
@@ -1611,6 +1613,9 @@ GENERATORS = {
     ('U41', 'rollback'): w_http_queue,
     ('U42', 'checkpoint'): w_http_queue,
     ('U42', 'rollback_to'): w_http_queue,
+    ('U42', 'wal_len'): w_http_queue,
+    ('U42', 'wal_truncate_to'): w_http_queue,
+    ('U42', 'wal_truncate'): w_http_queue,
     ('U40', 'validate_fields'): w_accept,
     ('U40', 'collect_fields'): w_accept,
     ('U40', 'validate_array'): w_accept,
